@@ -39,6 +39,43 @@ pub struct RocksEngine {
 
 impl Store for RocksEngine {}
 
+/// Verification hooks: a budget of writes after which every write to a Rocks engine fails without
+/// being applied, as if the process had been killed at that point.
+#[cfg(feature = "verif")]
+pub mod verif_hooks {
+    use std::sync::atomic::{AtomicI64, Ordering};
+
+    static WRITE_BUDGET: AtomicI64 = AtomicI64::new(i64::MAX);
+
+    /// Allow `n` more writes (all engines of the process together); `i64::MAX` removes the limit.
+    pub fn set_write_budget(n: i64) {
+        WRITE_BUDGET.store(n, Ordering::SeqCst);
+    }
+
+    pub(crate) fn take_write() -> bool {
+        WRITE_BUDGET
+            .fetch_update(Ordering::SeqCst, Ordering::SeqCst, |n| match n {
+                i64::MAX => Some(n),
+                n if n > 0 => Some(n - 1),
+                _ => None,
+            })
+            .is_ok()
+    }
+}
+
+#[cfg(feature = "verif")]
+macro_rules! verif_write {
+    () => {
+        if !verif_hooks::take_write() {
+            return Err(StoreError::Closing);
+        }
+    };
+}
+#[cfg(not(feature = "verif"))]
+macro_rules! verif_write {
+    () => {};
+}
+
 impl RocksEngine {
     pub fn new(delegate: DB) -> RocksEngine {
         RocksEngine {
@@ -134,6 +171,7 @@ impl KeyspaceByteEngine for RocksEngine {
         key: &[u8],
         value: &[u8],
     ) -> Result<(), StoreError> {
+        verif_write!();
         exec_keyspace(&self.delegate, keyspace, |delegate, keyspace| {
             delegate.put_cf(keyspace, key, value)
         })
@@ -150,6 +188,7 @@ impl KeyspaceByteEngine for RocksEngine {
     }
 
     fn delete_keyspace<K: Keyspace>(&self, keyspace: K, key: &[u8]) -> Result<(), StoreError> {
+        verif_write!();
         exec_keyspace(&self.delegate, keyspace, |delegate, keyspace| {
             delegate.delete_cf(keyspace, key)
         })
@@ -161,6 +200,7 @@ impl KeyspaceByteEngine for RocksEngine {
         key: &[u8],
         value: u64,
     ) -> Result<(), StoreError> {
+        verif_write!();
         let mut buf = [0u8; MAX_ID_SIZE];
         let value = serialize_u64(value, &mut buf);
         exec_keyspace(&self.delegate, keyspace, move |delegate, keyspace| {
@@ -177,6 +217,7 @@ impl KeyspaceByteEngine for RocksEngine {
     where
         S: Keyspace,
     {
+        verif_write!();
         exec_keyspace(&self.delegate, keyspace, move |delegate, keyspace| {
             delegate.delete_range_cf(keyspace, start, ubound)
         })
